@@ -5,6 +5,7 @@ import (
 	"fmt"
 	"hash/fnv"
 	"os"
+	"runtime"
 	"sort"
 	"strings"
 	"time"
@@ -122,7 +123,9 @@ func RunCase(t *rapid.T, pd *PropDef, st *RunStats, known map[string]bool) {
 			if r := recover(); r != nil {
 				v, ok := r.(*Violation)
 				if !ok {
-					panic(r)
+					if v = libraryPanic(r, it); v == nil {
+						panic(r)
+					}
 				}
 				cs.Ops = ops
 				cs.Failure = v.Msg
@@ -195,6 +198,9 @@ func Replay(pd *PropDef, cs *Case) (v *Violation) {
 				v = vv
 				return
 			}
+			if v = libraryPanic(r, nil); v != nil {
+				return
+			}
 			panic(r)
 		}
 	}()
@@ -250,4 +256,43 @@ func (it *Interp) Final() {
 	}
 	// a structural operation succeeds on the unlocked world
 	it.Apply(&Op{K: "new", P: PWorld})
+}
+
+// libraryPanic is called from a deferred function while r is being recovered. Every call the harness makes outside
+// try() is a call it considers valid (reads, queries, statistics ...), so a panic that originates in the library (first
+// non-runtime frame below the panic is an ark function) is a violation; a panic that originates in the harness itself
+// is a harness error and is passed on (the driver reports it as inconclusive).
+func libraryPanic(r any, it *Interp) *Violation {
+	if isRapidPanic(r) {
+		return nil
+	}
+	if s, ok := r.(string); ok && strings.HasPrefix(s, "bad op") {
+		return nil
+	}
+	pcs := make([]uintptr, 64)
+	n := runtime.Callers(2, pcs)
+	frames := runtime.CallersFrames(pcs[:n])
+	seenPanic := false
+	for {
+		f, more := frames.Next()
+		fn := f.Function
+		if strings.HasPrefix(fn, "runtime.") {
+			if fn == "runtime.gopanic" || strings.HasPrefix(fn, "runtime.panic") || fn == "runtime.sigpanic" || fn == "runtime.goPanicIndex" {
+				seenPanic = true
+			}
+		} else if seenPanic {
+			if strings.HasPrefix(fn, "github.com/mlange-42/ark/") {
+				short := fn[strings.LastIndex(fn, "/")+1:]
+				step := 0
+				if it != nil {
+					step = it.Step
+				}
+				return &Violation{Sig: "panic|valid-read|" + short, Msg: fmt.Sprintf("step %d: a call the harness makes on a consistent world (read, query, statistics) panicked inside %s: %v", step, fn, r)}
+			}
+			return nil
+		}
+		if !more {
+			return nil
+		}
+	}
 }
